@@ -10,6 +10,8 @@ value; everything held before is still held with the same value; and every later
 evaluation returns what it returns in a run of the same history with the failing calls
 left out.
 """
+import re
+
 from .. import exec_props as X
 from ..execworld import ExecImpl, node_s, val_s
 from ..impl import mx, quiet, err_kind
@@ -78,11 +80,12 @@ def oracle(case, recs, out, stats):
                     orig = mx.get_error()
                     if type(orig).__name__ == "NoneReturnedError":
                         stats["oracle_none_returned_errors"] += 1
-                        ch = real_chain(orig)
-                        # the failure point: the innermost element of the chain that was executing
-                        if ch and documented_allow_none(case, ch[-1][0]):
+                        # the failure point is named by the error itself (the formula frame of the element that
+                        # returned None is gone when _store_value raises, so the traceback does not show it)
+                        mm = re.search(r"\.c(\d+)\(", str(orig))
+                        if mm and documented_allow_none(case, int(mm.group(1))):
                             out.fail("NoneReturnedError for %s although the nearest allow_none setting allows None"
-                                     % node_s(ch[-1][0], ch[-1][1]), hist)
+                                     % str(orig), hist)
                 except TypeError:
                     continue       # wrong arity at top level: rejected before anything runs
                 except BaseException as e:
